@@ -1037,6 +1037,12 @@ func runL4(args []string) {
 			if strings.HasPrefix(c.Path, "tx") {
 				rep.addHolds("C12", f)
 			}
+			if c.Op == "pair" {
+				// the first of the two is held inside the driver's Prepare until its context
+				// ends: if it never returns, the end of its context did not reach the driver
+				f.Detail = "the pair did not return within 15 s: the operation held inside the driver's Prepare is ended by cancelling its context (or passing its deadline), which has to reach the driver"
+				rep.addHolds("C20", f)
+			}
 			return
 		}
 		nontrivial := len(obs.Events) > 0
